@@ -409,8 +409,19 @@ def _install() -> None:
          lambda a, k: n.apply_over_axes(n.sum, a[0], [0, 1]), "higher", weight=1)
 
     # --- text
+    def _text(f: Callable) -> Callable:
+        def call_(a: list, k: dict) -> Any:
+            k = dict(k)
+            popts = k.pop("printoptions", None)
+            if popts:
+                with numpy.printoptions(**popts):
+                    return f(a[0], **k)
+            return f(a[0], **k)
+
+        return call_
+
     for name, f in (("str", str), ("repr", repr), ("array_str", n.array_str), ("array_repr", n.array_repr)):
-        _reg(name, g_unary, lambda a, k, f=f: f(a[0]), "text", display=True)
+        _reg(name, lambda ch: g_unary(ch, kind=ch.choice(["int", "float", "float"])), _text(f), "text", display=True)
 
     # --- construction
     _reg("polynomial", g_unary, lambda a, k: n.polynomial(a[0]), "construct")
@@ -530,11 +541,57 @@ def names(filter_: Optional[Callable[[Op], bool]] = None) -> List[str]:
     return [k for k, v in OPS.items() if filter_ is None or filter_(v)]
 
 
+WHERE_OPS = {
+    "absolute", "negative", "positive", "square", "ceil", "floor", "rint", "isfinite", "add", "subtract", "multiply",
+    "numpy.add", "numpy.subtract", "numpy.multiply", "numpy.negative", "numpy.square", "numpy.absolute",
+    "equal", "not_equal", "less", "less_equal", "greater", "greater_equal", "maximum", "minimum", "logical_and", "logical_or",
+}
+TEXT_OPS = {"array_str", "array_repr"}
+
+
+def _decorate(ch: core.Chooser, name: str, spec: dict) -> dict:
+    """Optional keyword arguments the signature accepts (seeded, sparse)."""
+    kwargs = dict(spec.get("kwargs", {}))
+    polys = [a["poly"] for a in spec["args"] if isinstance(a, dict) and "poly" in a]
+    if name in WHERE_OPS and polys and ch.chance(0.2):
+        shapes = [tuple(p["shape"]) for p in polys]
+        try:
+            shape = tuple(numpy.broadcast_shapes(*shapes))
+        except ValueError:
+            shape = shapes[0]
+        size = int(numpy.prod(shape, dtype=int))
+        if ch.chance(0.8) and size:
+            mask = numpy.array([ch.chance(0.5) for _ in range(size)], dtype=bool).reshape(shape)
+            if mask.all():
+                mask.reshape(-1)[ch.below(size)] = False
+            kwargs["where"] = A(mask, "bool")
+        else:
+            kwargs["where"] = ch.chance(0.5)
+    if name in TEXT_OPS and ch.chance(0.5):
+        if ch.chance(0.7):
+            kwargs["suppress_small"] = ch.chance(0.7)
+        if ch.chance(0.6):
+            kwargs["precision"] = ch.choice([0, 2, 4, 8])
+        if ch.chance(0.2):
+            kwargs["max_line_width"] = ch.choice([20, 75, 200])
+    if name in ("str", "repr") and ch.chance(0.3):
+        kwargs["printoptions"] = {"raw": {"suppress": ch.chance(0.7), "precision": ch.choice([2, 4, 8])}}
+    if name in ("sum", "mean", "cumsum") and ch.chance(0.15):
+        kwargs["dtype"] = ch.choice(["float64", "complex128"])
+    if name in ("isclose", "allclose") and ch.chance(0.3):
+        kwargs.update({"rtol": ch.choice([1e-5, 0.1]), "atol": ch.choice([1e-8, 0.5]), "equal_nan": ch.chance(0.5)})
+    if name in ("zeros_like", "ones_like", "full_like") and ch.chance(0.3):
+        kwargs["dtype"] = ch.choice(["float64", "int64", "complex128"])
+    if name == "pickle":
+        kwargs["protocol"] = ch.below(6)
+    return dict(spec, kwargs=kwargs)
+
+
 def gen_op(ch: core.Chooser, filter_: Optional[Callable[[Op], bool]] = None, only: Optional[List[str]] = None) -> dict:
     ensure()
     pool = [(OPS[k].weight, k) for k in (only if only is not None else OPS) if filter_ is None or filter_(OPS[k])]
     name = ch.weighted(pool)
-    spec = OPS[name].gen(ch.sub("g"))
+    spec = _decorate(ch.sub("deco"), name, OPS[name].gen(ch.sub("g")))
     return {"op": name, "args": spec["args"], "kwargs": spec.get("kwargs", {})}
 
 
